@@ -34,9 +34,11 @@ RULE = ("export cases: images of kind gray-8 / RGB-8 / 1-bit / DCT with widths c
         "non-trivial when it is a distinct input with >= 1 image whose sample array is not constant")
 TRUSTED_BASE = [
     "hand model lean/PdfVerif/Model/Image.lean of image.py (export_image format choice, BMPWriter, _save_bmp/_save_jpeg/"
-    "_save_raw, _create_unique_image_name) and Model/Inline.lean of PDFContentParser.get_inline_data - both "
-    "correspondence-checked byte for byte on every generated case",
-    "tools/translate for align32 (Gen/ImageGen.lean), also run against the Python original",
+    "_save_raw, _create_unique_image_name), Model/Inline.lean of PDFContentParser.get_inline_data and Model/InlineDict.lean of "
+    "do_keyword(ID) / inline_image_size / do_EI / LTImage.__init__ - all correspondence-checked on every generated case",
+    "tools/translate for align32, the bits->ncols chain, linesize/datasize/headersize, both struct.pack field lists, the "
+    "_save_bmp arguments of export_image, image_data_size, INLINE_IMAGE_COMPONENTS and the .jpg/.bmp extensions "
+    "(Gen/ImageGen.lean) - the translated definitions are what the theorems are about and are also run against pdfminer",
     "the Python BMP reader / encoders in tools/harness/imglib.py (reader checked equal to the Lean reader on every file)",
     "stream filter decoding itself belongs to C03; here the harness' encoders feed pdfminer's decoders and the decoded "
     "samples are compared",
@@ -54,18 +56,32 @@ STATEMENT_STATUS = {
     "C18_bmp_rt_pixelwise / C18_samples_pixelwise": "proved (same, against the index-based meaning of samples)",
     "C18_bmp_pinned_cex": "proved counter-example for the pinned writer (padding, R/B order)",
     "C18_jpeg_bytes": "proved",
+    "C18_raw_dump": "proved (kinds the property does not name: 2/4/16-bit, CMYK, Lab, ...: data dumped unchanged, fresh name)",
     "C18_names_distinct": "proved (with C18_export_fresh, C18_unique_name_terminates)",
-    "C18_inline_scan / C18_inline_scan_eof": "proved (consumed = data EOL EI ws; result = data++EOL minus one EOL)",
-    "C18_inline_capture_partial": "partial: excludes data ending in CR when the EOL is a bare LF",
-    "C18_inline_trailing_cr_cex": "proved counter-example (open finding inline-data-trailing-cr)",
+    "C18_inline_scan / C18_inline_scan_eof": "proved for every size hint (consumed = data EOL EI ws; result = finish hint (data++EOL))",
+    "C18_inline_capture / C18_inline_capture_eof": "proved in full for unfiltered images (size hint = data length): every EOL form, "
+                                                   "any last bytes",
+    "C18_inline_image / C18_inline_image_exported": "proved: BI..ID dictionary (abbreviated or full keys) -> pushed stream -> do_EI -> "
+                                                    "LTImage fields -> export_image -> readBMP = stored samples",
+    "C18_inline_capture_nohint_partial": "partial: payloads whose size the dictionary does not tell (filtered): excludes payload "
+                                         "ending in CR when the EOL is a bare LF",
+    "C18_inline_trailing_cr_cex": "proved counter-example (open finding inline-data-trailing-cr, filtered payloads only)",
 }
 
 
 def _cr_lf(f) -> bool:
-    return bool(f.tags.get("data_ends_cr")) and f.tags.get("sep") == "0a" and f.tags.get("area") == "inline"
+    # only FILTERED payloads are left: the size of unfiltered data is known from the dictionary
+    return (bool(f.tags.get("data_ends_cr")) and f.tags.get("sep") == "0a" and f.tags.get("area") == "inline" and
+            bool(f.tags.get("filtered")))
+
+
+def _other_geometry(f) -> bool:
+    return f.tags.get("area") == "other-kind" and f.what.startswith("an image was written as a")
 
 
 CLASSIFIERS = {
+    # kinds the property does not name, written through a bitmap path that assumes another sample size
+    "c18_unnamed_kind_bitmap_geometry": _other_geometry,
     # data whose last byte is CR, written with a bare LF before EI: pdfminer strips CR LF as one EOL
     "c18_inline_data_ends_cr_before_lf": _cr_lf,
 }
@@ -133,19 +149,21 @@ def make_stream(img: Dict[str, Any], rng=None, raw: Optional[bytes] = None):
     d = IL.image_dict(img, inline, abbreviate=img.get("abbr", True))
     if "bits" in img:
         d["BPC" if "BPC" in d else "BitsPerComponent"] = img["bits"]
-    if "cs" in img:
+    if "cslist" in img:
         key = "CS" if "CS" in d else "ColorSpace"
-        full = {"G": "DeviceGray", "RGB": "DeviceRGB", "CMYK": "DeviceCMYK", "g": "G", "rgb": "RGB", "I": "Indexed"}
-        if img["cs"] == "N":
+        if img["cslist"] is None:
             d.pop(key)
+        elif img.get("cs_scalar"):
+            d[key] = img["cslist"][0]
         else:
-            d[key] = full[img["cs"]]
+            d[key] = list(img["cslist"])
     attrs = {}
     for k, v in d.items():
         if isinstance(v, str):
             v = _lit(v)
         elif isinstance(v, list):
-            v = [_lit(x) for x in v]
+            v = [(_lit(x) if isinstance(x, str) and not x.startswith("<") else
+                  (bytes.fromhex(x[1:-1]) if isinstance(x, str) else x)) for x in v]
         attrs[k] = v
     if raw is None:
         raw = IL.encode_chain(bytes.fromhex(img["data"]), img.get("filters", []), rng)
@@ -156,14 +174,24 @@ def flt_code(filters: List[str]) -> str:
     return "".join(IL.LETTER[f] for f in filters) or "-"
 
 
-def cs_code(img) -> str:
+def cs_wire(img) -> str:
+    """The ColorSpace value as the model sees it: `none` (no entry), or the elements of LTImage.colorspace."""
+    def tok(x):
+        if isinstance(x, int):
+            return "i%d" % x
+        if isinstance(x, str) and x.startswith("<"):
+            return "s"
+        return "n" + C.hx(x.encode("latin-1"))
+    if "cslist" in img:
+        if img["cslist"] is None:
+            return "none"
+        return ",".join(tok(x) for x in img["cslist"]) or "empty"
     k = img["kind"]
-    if "cs" in img:
-        return img["cs"]
-    long = {"gray8": "G", "rgb8": "RGB", "bit1": "G", "jpeg-gray": "G", "jpeg-rgb": "RGB"}[k]
+    long = {"gray8": "DeviceGray", "rgb8": "DeviceRGB", "bit1": "DeviceGray", "jpeg-gray": "DeviceGray",
+            "jpeg-rgb": "DeviceRGB"}[k]
     if img.get("place") == "inline" and img.get("abbr", True):
-        return long.lower()
-    return long
+        long = IL.CS_ABBR[k]
+    return tok(long)
 
 
 def bits_of(img) -> int:
@@ -385,6 +413,67 @@ def shrink_image(img: Dict[str, Any], still_fails) -> Dict[str, Any]:
     return cur
 
 
+OTHER_CS = [
+    (["DeviceCMYK"], 4), (["CMYK"], 4), (["Indexed", "DeviceRGB", 255, "<000000ffffff>"], 1),
+    (["I", "RGB", 1, "<000000ffffff>"], 1), (["Indexed", "DeviceGray", 3, "<00ff>"], 1),
+    (["Indexed", "DeviceCMYK", 1, "<00000000ffffffff>"], 1), (["Separation", "Spot", "DeviceRGB", "<00>"], 1),
+    (["Separation", "Spot", "DeviceGray", "<00>"], 1), (["CalRGB"], 3), (["CalGray"], 1), (["Lab"], 3),
+    (["DeviceN", "<00>", "DeviceCMYK", "<00>"], 2), (None, 1), ([], 1), (["DeviceRGB"], 3), (["DeviceGray"], 1),
+    (["RGB"], 3), (["G"], 1), (["Pattern"], 1),
+]
+
+
+def gen_other_image(rng, idx: int) -> Dict[str, Any]:
+    cslist, ncomp = rng.choice(OTHER_CS)
+    bits = rng.choice([1, 2, 4, 8, 8, 16])
+    named = cslist in (["DeviceRGB"], ["DeviceGray"], ["RGB"], ["G"]) and bits in (1, 8) and not (bits == 1 and ncomp == 3)
+    if named:
+        bits = rng.choice([2, 4, 16])
+    w = rng.choice([1, 2, 3, 4, 5, 7, 8, 9, 17])
+    h = rng.choice([1, 2, 3])
+    n = h * ((w * bits * ncomp + 7) // 8)
+    return {"kind": "other", "w": w, "h": h, "bits": bits, "ncomp": ncomp, "cslist": cslist,
+            "cs_scalar": bool(cslist) and len(cslist) == 1 and rng.random() < 0.6,
+            "data": gen_samples(rng, n).hex(),
+            "filters": rng.choice([[], [], ["Flate"], ["A85"], ["Flate", "A85"], ["A85", "Flate"], ["RL"], ["A85", "DCT"], ["DCT"]]),
+            "name": rng.choice(["Im0", "X", "o%d" % idx]), "place": "xobj", "domain": False}
+
+
+def judge_other(img: Dict[str, Any], name: Optional[str], blob: Optional[bytes], exc: Optional[str]):
+    """Images of kinds the property does not name: the export may fall back to a raw dump or need Pillow, but it must
+    not crash otherwise, and it may take the bitmap path only when the sample data has the size that path assumes."""
+    data = bytes.fromhex(img["data"])
+    if exc is not None:
+        if exc == "ImportError":
+            return None               # documented: Pillow is needed for this kind
+        return ("image export of an unnamed kind raised", "a file or ImportError(Pillow)", exc)
+    if name.endswith(".img"):
+        if blob != data:
+            return ("raw image dump differs from the stored data", data.hex(), blob.hex())
+        want = ".%d.%dx%d.img" % (img["bits"], img["w"], img["h"])
+        if not name.endswith(want):
+            return ("raw image dump has a wrong name suffix", want, name)
+        return None
+    if name.endswith(".jpg"):
+        return None if blob == data else ("exported JPEG differs from the stored DCT data", data.hex(), blob.hex())
+    if name.endswith(".bmp"):
+        dec = IL.read_bmp(blob)
+        if dec is None:
+            return ("exported BMP is not a complete well-formed BMP file", "decodable file", blob[:60].hex())
+        depth = struct_depth(blob)
+        rowb = (img["w"] * depth + 7) // 8
+        if len(data) != img["h"] * rowb:
+            return ("an image was written as a %d-bit bitmap although its sample data has another size" % depth,
+                    "raw dump or a bitmap of matching geometry", {"name": name, "data_bytes": len(data),
+                                                                   "bitmap_bytes": img["h"] * rowb})
+        return None
+    return ("unexpected file type", "bmp/jpg/img", name)
+
+
+def struct_depth(blob: bytes) -> int:
+    return int.from_bytes(blob[28:30], "little")
+
+
 def check_export_direct(ctx: C.Ctx, imgs: List[Dict[str, Any]], pre: List[str], lines, impl, inputs, tag="gen"):
     res, listing, untouched = export_direct(imgs, ctx.rng, pre)
     existing = list(pre)
@@ -397,10 +486,11 @@ def check_export_direct(ctx: C.Ctx, imgs: List[Dict[str, Any]], pre: List[str], 
                  branch="export:" + img["kind"] + (":raw" if not img.get("filters") else ":filtered"))
         for f in img.get("filters", []):
             ctx.branch("filter:" + f)
-        ctx.branch("rowbytes%4=" + str(IL.row_bytes(img["kind"], img["w"]) % 4 if not img["kind"].startswith("jpeg") else "-"))
+        if img["kind"] != "other":
+            ctx.branch("rowbytes%4=" + str(IL.row_bytes(img["kind"], img["w"]) % 4 if not img["kind"].startswith("jpeg") else "-"))
         # model line
         lines.append("export %s %s %d %d %d %s %s %s" % (
-            flt_code(img.get("filters", [])), cs_code(img), bits_of(img), img["w"], img["h"],
+            flt_code(img.get("filters", [])), cs_wire(img), bits_of(img), img["w"], img["h"],
             C.hx(img["name"].encode("latin-1")), ",".join(C.hx(n.encode("latin-1")) for n in existing) or "-",
             C.hx(data)))
         impl.append("E:" + exc if exc else "OK %s %s" % (C.hx(name.encode("latin-1")), C.hx(blob)))
@@ -413,7 +503,15 @@ def check_export_direct(ctx: C.Ctx, imgs: List[Dict[str, Any]], pre: List[str], 
                 dec = IL.read_bmp(blob)
                 impl.append("none" if dec is None else "OK %d %d %s" % (dec[0], dec[1], C.hx(dec[2])))
                 inputs.append(("readbmp", {"file": blob.hex()}))
-        if img.get("domain", True):
+        if img["kind"] == "other":
+            bad = judge_other(img, name, blob, exc)
+            ctx.branch("other:bits=%d" % img["bits"])
+            ctx.branch("other:cs=" + ("none" if img["cslist"] is None else "/".join(str(x) for x in img["cslist"][:2]) or "[]"))
+            ctx.branch("other:result=" + (exc or name.rsplit(".", 1)[-1]))
+            if bad is not None:
+                ctx.fail(C.Failure(bad[0], {"mode": "direct", "images": [img], "pre": []}, bad[1], bad[2],
+                                   {"area": "other-kind", "bits": img["bits"], "cs": img["cslist"], "filters": img["filters"]}))
+        elif img.get("domain", True):
             bad = judge_file(img, name, blob, exc)
             if bad is not None:
                 def still(t):
@@ -464,16 +562,11 @@ def run_export(ctx: C.Ctx) -> None:
             if rng.random() < 0.3 and len(pre) > 1:
                 pre.pop(rng.randrange(1, len(pre)))    # a gap in the numbering
         check_export_direct(ctx, imgs, pre, lines, impl, inputs)
-    # off-domain shapes, for the tie only (format choice branches: raw .img, Pillow paths)
-    for i in range(ctx.n(200, 3000)):
-        img = gen_image(rng, idx, force_kind="gray8")
+    # kinds the property does not name (2/4/16-bit samples, Indexed, CMYK, Separation, Cal*, missing colour space):
+    # tie for every format-choice branch, and the weaker demand `judge_other`
+    for i in range(ctx.n(400, 6000)):
+        img = gen_other_image(rng, idx)
         idx += 1
-        img["domain"] = False
-        img["bits"] = rng.choice([2, 4, 16, 8, 8])
-        img["cs"] = rng.choice(["CMYK", "I", "N", "G", "RGB"])
-        img["filters"] = rng.choice([[], ["Flate"], ["A85"], ["Flate", "A85"], ["A85", "Flate"]])
-        if img["bits"] == 8 and img["cs"] in ("G", "RGB"):
-            img["cs"] = "CMYK"
         check_export_direct(ctx, [img], [], lines, impl, inputs)
     ask_and_compare(ctx, lines, impl, inputs)
 
@@ -561,7 +654,7 @@ def inline_tags_of(imgs):
         if img["place"] == "inline":
             payload_last = IL.encode_chain(bytes.fromhex(img["data"]), img.get("filters", []), None)[-1:]
             return {"data_ends_cr": payload_last == b"\r", "sep": img.get("sep", "0a"), "after": img.get("after", "0a"),
-                    "abbr": img.get("abbr", True)}
+                    "abbr": img.get("abbr", True), "filtered": bool(img.get("filters"))}
     return {}
 
 
@@ -705,7 +798,7 @@ def impl_tokens(content: bytes, bufsiz: int) -> Tuple[List[str], Optional[str]]:
     return toks, "nonterminating"
 
 
-def impl_inline(content: bytes, start: int, target: bytes, bufsiz: int) -> str:
+def impl_inline(content: bytes, start: int, target: bytes, bufsiz: int, length: Optional[int] = None) -> str:
     """PDFContentParser.get_inline_data called at `start` -> canonical reply of the model op `inline`."""
     from pdfminer.pdfinterp import PDFContentParser
     from pdfminer.pdftypes import PDFStream
@@ -713,7 +806,10 @@ def impl_inline(content: bytes, start: int, target: bytes, bufsiz: int) -> str:
     p = PDFContentParser([PDFStream({}, content)])
     p.BUFSIZ = bufsiz
     try:
-        (_, data) = p.get_inline_data(start, target=target)
+        if length is None:
+            (_, data) = p.get_inline_data(start, target=target)
+        else:
+            (_, data) = p.get_inline_data(start, target=target, length=length)
     except PSEOF:
         return "EOF"
     except Exception as e:  # noqa: BLE001
@@ -754,14 +850,57 @@ def gen_inline_case(rng, in_domain: bool) -> Dict[str, Any]:
     if after == b"":
         suffix = b""              # EI is the last token of the stream
     prefix = rng.choice([b"", b"q ", b"q 1 0 0 1 2 3 cm\n", b"BT (a) Tj ET\n"])
-    return {"prefix": prefix.hex(), "data": data.hex(), "sep": sep.hex(), "after": after.hex(), "suffix": suffix.hex(),
+    case = {"prefix": prefix.hex(), "data": data.hex(), "sep": sep.hex(), "after": after.hex(), "suffix": suffix.hex(),
             "id_ws": rng.choice(["20", "0a", "20", "0d"]), "abbr": rng.random() < 0.8,
             "bufsiz": rng.choice([1, 2, 3, 4, 5, 7, 8, 16, 33, 64, 4096, 4096])}
+    case.update(inline_dims(rng, len(data), in_domain))
+    return case
+
+
+def inline_dims(rng, n: int, in_domain: bool) -> Dict[str, Any]:
+    """Width/height/kind of the image dictionary: consistent with n data bytes (a well-formed image), or a
+    filter entry (then the bytes are an opaque payload and the dictionary says nothing about their number)."""
+    r = rng.random()
+    if r < 0.15:
+        return {"kind": "gray8", "w": rng.randint(1, 9), "h": rng.randint(1, 9), "flt": rng.choice(["Fl", "LZW", "DCT", "RL"])}
+    if n == 0 or (not in_domain and r < 0.5):
+        return {"kind": "gray8", "w": 2, "h": 2, "flt": None}          # size and data disagree: tie only
+    opts = [("gray8", n, 1)]
+    for hh in (2, 3, 5):
+        if n % hh == 0:
+            opts.append(("gray8", n // hh, hh))
+    if n % 3 == 0:
+        opts.append(("rgb8", n // 3, 1))
+    opts.append(("bit1", 8 * n - rng.randint(0, 7), 1))
+    k, w, h = rng.choice(opts)
+    return {"kind": k, "w": w, "h": h, "flt": None}
+
+
+def inline_dict_of(case) -> Dict[str, Any]:
+    img = {"kind": case.get("kind", "gray8"), "w": case.get("w", 2), "h": case.get("h", 2),
+           "filters": []}
+    d = IL.image_dict(img, True, case.get("abbr", True))
+    if case.get("flt"):
+        d["F" if case.get("abbr", True) else "Filter"] = case["flt"] if case.get("abbr", True) else \
+            {"Fl": "FlateDecode", "LZW": "LZWDecode", "DCT": "DCTDecode", "RL": "RunLengthDecode"}[case["flt"]]
+    return d
+
+
+def inline_wellformed(case) -> bool:
+    if case.get("flt"):
+        return True
+    n = len(bytes.fromhex(case["data"]))
+    return n == case.get("h", 2) * IL.row_bytes(case.get("kind", "gray8"), case.get("w", 2))
+
+
+def inline_size_hint(case) -> Optional[int]:
+    if case.get("flt"):
+        return None
+    return case.get("h", 2) * IL.row_bytes(case.get("kind", "gray8"), case.get("w", 2))
 
 
 def inline_content(case) -> Tuple[bytes, int, bytes]:
-    img = {"kind": "gray8", "w": 2, "h": 2, "filters": []}
-    d = IL.image_dict(img, True, case.get("abbr", True))
+    d = inline_dict_of(case)
     head = bytes.fromhex(case["prefix"]) + b"BI " + b" ".join(W.ser(k) + b" " + W.ser(v) for k, v in d.items()) + b" ID"
     start = len(head) + 1
     content = (head + bytes.fromhex(case["id_ws"]) + bytes.fromhex(case["data"]) + bytes.fromhex(case["sep"]) + b"EI" +
@@ -777,12 +916,12 @@ def inline_verdict(case) -> Optional[Tuple[str, Any, Any, Dict[str, Any]]]:
     toks, exc = impl_tokens(content, bufsiz)
     pre, _ = impl_tokens(bytes.fromhex(case["prefix"]), bufsiz)
     suf, _ = impl_tokens(bytes.fromhex(case["suffix"]), bufsiz)
-    img = {"kind": "gray8", "w": 2, "h": 2, "filters": []}
-    d = IL.image_dict(img, True, case.get("abbr", True))
+    d = inline_dict_of(case)
     imgtok = "img{" + ",".join(k + "=" + ("n:" + v if isinstance(v, str) else "i:%d" % v) for k, v in sorted(d.items())) + \
              "}:" + C.hx(data)
     exp = pre + [imgtok, "k:EI"] + suf
     tags = {"area": "inline", "data_ends_cr": data.endswith(b"\r"), "sep": case["sep"], "after": case["after"],
+            "filtered": bool(case.get("flt")),
             "data_ends_E": data.endswith(b"E"), "eof_after_EI": case["after"] == "" and case["suffix"] == "",
             "bufsiz": bufsiz}
     if exc is not None:
@@ -814,12 +953,16 @@ def shrink_inline(case, what):
         def still(sub):
             t = dict(cur)
             t["data"] = bytes(sub).hex()
+            if not cur.get("flt"):
+                t.update(kind="gray8", w=len(sub), h=1)
             if IL.has_marker(bytes(sub) + bytes.fromhex(cur["sep"])):
                 return False
             return fails(t)
         small = C.ddmin(data, still, 200)
         t = dict(cur)
         t["data"] = bytes(small).hex()
+        if not cur.get("flt"):
+            t.update(kind="gray8", w=len(small), h=1)
         if fails(t):
             cur = t
     for b in (4096, 1):
@@ -846,7 +989,13 @@ def check_inline_case(ctx: C.Ctx, case, in_domain: bool, lines, impl, inputs) ->
     lines.append("inline 4549 %s" % C.hx(content[start:]))
     impl.append(impl_inline(content, start, b"EI", case["bufsiz"]))
     inputs.append(("inline", case))
-    if in_domain:
+    hint = inline_size_hint(case)
+    lines.append("inlinelen 4549 %s %s" % ("-" if hint is None else hint, C.hx(content[start:])))
+    impl.append(impl_inline(content, start, b"EI", case["bufsiz"], hint))
+    inputs.append(("inlinelen", case))
+    ctx.branch("inline:" + ("filtered" if case.get("flt") else "unfiltered:" + case.get("kind", "gray8") +
+                            ("" if inline_wellformed(case) else ":size-mismatch")))
+    if in_domain and inline_wellformed(case):
         v = inline_verdict(case)
         if v is not None:
             small = shrink_inline(case, v[0])
@@ -875,6 +1024,166 @@ def run_inline(ctx: C.Ctx) -> None:
         inputs.append(("inline85", {"content": content.hex(), "bufsiz": bs}))
         ctx.case(("a85", content, bs), True, branch="inline:a85-target")
     ask_and_compare(ctx, lines, impl, inputs)
+
+
+
+# ------------------------------------------------------------------ BI/ID dictionary assembly, do_EI, LTImage (glue)
+
+def val_wire(o) -> str:
+    from pdfminer.psparser import PSLiteral
+    if isinstance(o, bool):
+        return "b1" if o else "b0"
+    if isinstance(o, int):
+        return "i%d" % o
+    if isinstance(o, W.Name):
+        return "n" + C.hx(o.b)
+    if isinstance(o, PSLiteral):
+        nm = o.name if isinstance(o.name, bytes) else o.name.encode("latin-1")
+        return "n" + C.hx(nm)
+    if isinstance(o, (list, tuple)):
+        return ",".join(["["] + [val_wire(x) for x in o] + ["]"])
+    if o is None:
+        return "none"
+    if isinstance(o, bytes) and o:
+        return "s"
+    return "o"
+
+
+DICT_KEYS = ["W", "Width", "H", "Height", "BPC", "BitsPerComponent", "CS", "ColorSpace", "F", "Filter", "IM", "ImageMask",
+             "D", "Decode", "DP", "I", "Intent", "X"]
+CS_NAMES = ["G", "RGB", "CMYK", "I", "DeviceGray", "DeviceRGB", "DeviceCMYK", "Indexed", "CalGray", "CalRGB", "Lab", "Pattern", "Zz"]
+FLT_NAMES = ["A85", "ASCII85Decode", "Fl", "FlateDecode", "AHx", "DCT", "LZW", "RL", "Zz"]
+
+
+def gen_dict_objs(rng):
+    """Operand list between BI and ID: mostly a well-formed image dictionary, with rare keys/values of every kind."""
+    objs = []
+    n = rng.choice([2, 3, 4, 4, 5, 6])
+    keys = rng.sample(DICT_KEYS, n)
+    if rng.random() < 0.7:
+        for must in (rng.choice(["W", "Width"]), rng.choice(["H", "Height"])):
+            if must not in keys:
+                keys.append(must)
+    if rng.random() < 0.15:
+        keys.append(rng.choice(keys))          # a key twice: the later value wins
+    rng.shuffle(keys)
+    for k in keys:
+        objs.append(W.Name(k.encode()))
+        if k in ("W", "Width", "H", "Height"):
+            v = rng.choice([1, 2, 3, 5, 8, 0, -1, 70000, True, 1.5, W.Name(b"x")]) if rng.random() < 0.25 else rng.randint(1, 9)
+        elif k in ("BPC", "BitsPerComponent"):
+            v = rng.choice([1, 2, 4, 8, 8, 16, 0, 3, False, 8.0])
+        elif k in ("CS", "ColorSpace"):
+            r = rng.random()
+            if r < 0.6:
+                v = W.Name(rng.choice(CS_NAMES).encode())
+            elif r < 0.85:
+                v = [W.Name(rng.choice(CS_NAMES).encode()), W.Name(rng.choice(CS_NAMES).encode()), rng.randint(0, 255), b"\x00\xff"]
+            else:
+                v = rng.choice([[], 3, b"str", [7, W.Name(b"G")]])
+        elif k in ("F", "Filter"):
+            r = rng.random()
+            if r < 0.5:
+                v = W.Name(rng.choice(FLT_NAMES).encode())
+            elif r < 0.85:
+                v = [W.Name(rng.choice(FLT_NAMES).encode()) for _ in range(rng.randint(1, 3))]
+            else:
+                v = rng.choice([[], 5, True, [3, W.Name(b"A85")], b"s"])
+        elif k in ("IM", "ImageMask", "I"):
+            v = rng.choice([True, False, True, 1, W.Name(b"true")])
+        else:
+            v = rng.choice([[0, 1], 1.0, b"x", W.Name(b"n"), 7, {"K": 1}])
+        objs.append(v)
+    if rng.random() < 0.08 and objs:
+        objs.pop()                                  # odd number of operands
+    return objs
+
+
+class _RecDevice:
+    def __init__(self):
+        self.images = []
+
+    def begin_figure(self, *a):
+        pass
+
+    def end_figure(self, *a):
+        pass
+
+    def render_image(self, name, stream):
+        from pdfminer.layout import LTImage
+        self.images.append(LTImage(name, stream, (0, 0, 1, 1)))
+
+
+def impl_inline_dict(objs, inp: bytes, bufsiz: int) -> str:
+    from pdfminer import pdfinterp as PI
+    from pdfminer.pdftypes import PDFStream
+    from pdfminer.psparser import PSEOF, PSKeyword
+    head = b"BI " + b" ".join(W.ser(o) for o in objs) + b" ID"
+    content = head + b" " + inp
+    p = PI.PDFContentParser([PDFStream({}, content)])
+    p.BUFSIZ = bufsiz
+    try:
+        (pos, obj) = p.nextobject()
+    except PSEOF:
+        return "E:noimage"
+    except (IndexError, TypeError) as e:
+        return "E:" + type(e).__name__
+    except Exception:  # noqa: BLE001
+        return "E:noimage"
+    if not isinstance(obj, PDFStream):
+        return "E:noimage"
+    after = p.bufpos + (p.charpos if p.buf else 0)
+    push_ei = False
+    try:
+        (pos2, obj2) = p.nextobject()
+        push_ei = isinstance(obj2, PSKeyword) and obj2 is p.KEYWORD_EI and pos2 == pos
+    except Exception:  # noqa: BLE001
+        pass
+    size = PI.inline_image_size(obj.attrs)
+    dev = _RecDevice()
+    it = PI.PDFPageInterpreter(PI.PDFResourceManager(), dev)
+    it.do_EI(obj)
+    if dev.images:
+        lt = dev.images[0]
+        ltxt = "src=%s/%s;bits=%s;cs=%s;im=%s" % (val_wire(lt.srcsize[0]), val_wire(lt.srcsize[1]), val_wire(lt.bits),
+                                                  "|".join(val_wire(x) for x in lt.colorspace), val_wire(lt.imagemask))
+    else:
+        ltxt = "none"
+    return "OK ei=%d size=%s data=%s consumed=%d lt=%s" % (push_ei, "-" if size is None else size, C.hx(obj.rawdata or b""),
+                                                             after - (len(head) + 1), ltxt)
+
+
+def run_inline_dict(ctx: C.Ctx) -> None:
+    rng = ctx.rng
+    lines, impl, inputs = [], [], []
+    for i in range(ctx.n(1500, 30000)):
+        objs = gen_dict_objs(rng)
+        data = gen_inline_data(rng)
+        sep = rng.choice([b"\n", b"\r\n", b"\r", b" ", b""])
+        if rng.random() < 0.3:
+            body = bytes(rng.choice(b"ab!~>z") for _ in range(rng.randint(0, 6))) + b"~>" + rng.choice([b"\n", b" ", b""]) + b"EI\n Q"
+        else:
+            body = data + sep + b"EI" + rng.choice([b"\n", b" ", b"\t", b""]) + rng.choice([b"", b"Q", b"EI "])
+        wire = ",".join(val_wire(o) for o in objs) or "-"
+        bs = rng.choice([1, 3, 7, 4096, 4096])
+        lines.append("inlinedict %s %s" % (wire, C.hx(body)))
+        r = impl_inline_dict(objs, body, bs)
+        impl.append(r)
+        inputs.append(("inlinedict", {"objs": wire, "input": body.hex(), "bufsiz": bs}))
+        ctx.case(("idict", wire, body), True, branch="inlinedict:" + (r.split(" ")[0] if r.startswith("E:") else
+                                                                      ("lt" if not r.endswith("lt=none") else "no-lt")))
+        if " size=-" not in r and r.startswith("OK"):
+            ctx.branch("inlinedict:size-known")
+        if r.startswith("OK ei=0"):
+            ctx.branch("inlinedict:a85-marker")
+    if ctx.driver is None:
+        return
+    outs = ctx.driver.ask(lines)
+    for inp, i_out, m_out in zip(inputs, impl, outs):
+        if m_out in ("E:dropped", "E:EOF"):
+            m_out = "E:noimage"
+        if i_out != m_out:
+            ctx.disagree(inp[0], inp[1], i_out[:300], m_out[:300])
 
 
 # ------------------------------------------------------------------ translated definitions + reader twin
@@ -956,4 +1265,5 @@ def run(ctx: C.Ctx) -> None:
     run_small(ctx)
     run_export(ctx)
     run_inline(ctx)
+    run_inline_dict(ctx)
     run_pipeline_cases(ctx)
